@@ -54,6 +54,12 @@ pub enum Job {
     /// evaluate one of two very large shared expressions (beyond the tracker's inline capacity of
     /// 2048 operands) at point p
     EvalBig(usize, u32),
+    /// the shared *uncompiled* expression (parse_wo_compile, foldable literals left of a repeated
+    /// variable): eval / eval_vec on it at point p
+    EvalW(u32),
+    EvalVecW(u32),
+    /// clone the shared uncompiled expression, compile() the clone, evaluate it (eval and eval_vec)
+    CompileCloneW(u32),
     /// default float / value tables (global lazily initialised regexes)
     ParseF64(usize),
     ParseVal(usize),
@@ -70,6 +76,7 @@ fn expected(text: &str, t: &Table, p: u32) -> Nf {
     nf_ac(&tree.eval_sym(&vars, t).subst(&point(p, vars.len())), t)
 }
 
+const TEXTS_W: [&str; 3] = ["2*3*x+y+y", "2*3*x+y+y*x", "1+2+y*x*y-x"];
 const F64_TEXTS: [&str; 2] = ["sin(x)*2+max(x,1)", "{a b}^2-PI"];
 const VAL_TEXTS: [&str; 2] = ["1 if x > 2 else to_int(2.5)", "[1,2,3].1+x"];
 
@@ -108,9 +115,35 @@ pub enum Shared {
 }
 
 /// run one job; returns an observation string, or Err(description of the deviation)
-pub fn run_job(job: &Job, shared: &Shared, shared_text: &'static str) -> Result<String, String> {
+pub fn run_job(job: &Job, shared: &Shared, shared_text: &'static str, sharedw: &Arc<Vec<FlatA>>) -> Result<String, String> {
     let (ta, tb) = (table_a(), table_b());
     match job {
+        Job::EvalW(p) | Job::EvalVecW(p) | Job::CompileCloneW(p) => {
+            for (wi, sharedw) in sharedw.iter().enumerate() {
+                let text_w = TEXTS_W[wi];
+                let vals = point(*p, sharedw.var_names().len());
+                let want = expected(text_w, &ta, *p);
+                let mut results = Vec::new();
+                match job {
+                    Job::EvalW(_) => results.push(("eval", sharedw.eval(&vals))),
+                    Job::EvalVecW(_) => results.push(("eval_vec", sharedw.eval_vec(vals.clone()))),
+                    _ => {
+                        let mut c: FlatA = sharedw.clone();
+                        c.compile();
+                        results.push(("compiled clone eval", c.eval(&vals)));
+                        results.push(("compiled clone eval_vec", c.eval_vec(vals.clone())));
+                        results.push(("compiled clone eval_iter", c.eval_iter(vals.clone().into_iter())));
+                    }
+                }
+                for (what, r) in results {
+                    let v = r.map_err(|e| format!("{what} of the uncompiled shared expression failed: {}", e.msg()))?;
+                    if v.contains_dflt() || nf_ac(&v, &ta) != want {
+                        return Err(format!("{what} of the uncompiled shared expression {text_w:?} at point {p} gives {}", show(&v, &ta)));
+                    }
+                }
+            }
+            Ok(format!("{job:?}=ok"))
+        }
         Job::EvalShared(p) | Job::EvalVecShared(p) => {
             let n = match shared {
                 Shared::F(e) => e.var_names().len(),
@@ -211,6 +244,7 @@ pub fn bodies() -> Vec<Body> {
         Body { name: "B2-parse-same-and-different", shared_text: TEXTS[3], shared_deep: false, threads: vec![vec![ParseEval(0, 0, false, 0), ParseEval(4, 1, true, 1)], vec![ParseEval(4, 1, false, 2), ParseEval(4, 0, true, 3)]] },
         Body { name: "B2-parse-default-tables", shared_text: TEXTS[3], shared_deep: false, threads: vec![vec![ParseEval(2, 0, false, 0), ParseVal(0), ParseF64(0)], vec![ParseF64(1), ParseEval(2, 1, false, 1), ParseVal(1)]] },
         Body { name: "B3-convert-clone-while-evaluating", shared_text: TEXTS[1], shared_deep: false, threads: vec![vec![CloneConvert(0)], vec![EvalShared(1), EvalShared(2)]] },
+        Body { name: "B4-uncompiled-shared-evalvec-and-compiled-clones", shared_text: TEXTS[3], shared_deep: false, threads: vec![vec![EvalVecW(0), CompileCloneW(1)], vec![CompileCloneW(2), EvalVecW(3)]] },
         Body { name: "B1-three-threads", shared_text: TEXTS[2], shared_deep: false, threads: vec![vec![EvalShared(0)], vec![EvalShared(1)], vec![ParseEval(2, 1, false, 2)]] },
         Body { name: "B3-three-threads", shared_text: TEXTS[0], shared_deep: true, threads: vec![vec![CloneConvert(0)], vec![EvalShared(1)], vec![ParseEval(0, 1, true, 2)]] },
     ]
@@ -229,20 +263,22 @@ fn make_body(b: Body, col: Arc<Mutex<Collected>>) -> impl Fn() + Send + Sync + '
         set_tables();
         set_yield(true);
         let shared = if b.shared_deep { Shared::D(Arc::new(DeepA::parse(b.shared_text).expect("shared parses"))) } else { Shared::F(Arc::new(FlatA::parse(b.shared_text).expect("shared parses"))) };
+        let sharedw: Arc<Vec<FlatA>> = Arc::new(TEXTS_W.iter().map(|t| FlatA::parse_wo_compile(t).expect("shared uncompiled parses")).collect());
         let dump0 = match &shared {
-            Shared::F(e) => format!("{e:?}"),
-            Shared::D(e) => format!("{e:?}"),
+            Shared::F(e) => format!("{e:?}|{sharedw:?}"),
+            Shared::D(e) => format!("{e:?}|{sharedw:?}"),
         };
         let log: Arc<Mutex<Vec<(usize, String)>>> = Arc::new(Mutex::new(Vec::new()));
         let mut hs = Vec::new();
         for (tid, jobs) in b.threads.iter().cloned().enumerate() {
             let shared = shared.clone();
+            let sharedw = sharedw.clone();
             let col = col.clone();
             let log = log.clone();
             let (bname, stext) = (b.name, b.shared_text);
             hs.push(shuttle::thread::spawn(move || {
                 for job in &jobs {
-                    match guard(|| run_job(job, &shared, stext)) {
+                    match guard(|| run_job(job, &shared, stext, &sharedw)) {
                         Ok(Ok(obs)) => log.lock().unwrap().push((tid, obs)),
                         Ok(Err(m)) => col.lock().unwrap().bad.push((format!("{bname}:deviation:{job:?}"), m)),
                         Err(p) => col.lock().unwrap().bad.push((format!("{bname}:panic:{job:?}"), format!("panic: {p}"))),
@@ -255,8 +291,8 @@ fn make_body(b: Body, col: Arc<Mutex<Collected>>) -> impl Fn() + Send + Sync + '
         }
         set_yield(false);
         let dump1 = match &shared {
-            Shared::F(e) => format!("{e:?}"),
-            Shared::D(e) => format!("{e:?}"),
+            Shared::F(e) => format!("{e:?}|{sharedw:?}"),
+            Shared::D(e) => format!("{e:?}|{sharedw:?}"),
         };
         let mut c = col.lock().unwrap();
         if dump0 != dump1 {
@@ -349,20 +385,21 @@ impl Hist for Seq {
         set_yield(false);
         let mut out = Outcome { key: String::new(), bad: vec![], terminal: false, steps: 0 };
         let shared = Shared::F(Arc::new(FlatA::parse(TEXTS[0]).expect("shared parses")));
+        let sharedw: Arc<Vec<FlatA>> = Arc::new(TEXTS_W.iter().map(|t| FlatA::parse_wo_compile(t).expect("shared uncompiled parses")).collect());
         let dump0 = match &shared {
-            Shared::F(e) => format!("{e:?}"),
+            Shared::F(e) => format!("{e:?}|{sharedw:?}"),
             _ => String::new(),
         };
         let mut obs = Vec::new();
         for j in h {
             out.steps += 1;
-            match run_job(&self.jobs[*j], &shared, TEXTS[0]) {
+            match run_job(&self.jobs[*j], &shared, TEXTS[0], &sharedw) {
                 Ok(o) => obs.push(o),
                 Err(m) => out.bad.push((format!("sequential:{:?}", self.jobs[*j]), format!("history {}: {m}", self.describe(h)))),
             }
         }
         if let Shared::F(e) = &shared {
-            if format!("{e:?}") != dump0 {
+            if format!("{e:?}|{sharedw:?}") != dump0 {
                 out.bad.push(("sequential:shared-expression-modified".into(), format!("history {}", self.describe(h))));
             }
         }
@@ -440,7 +477,7 @@ fn fresh_process_replays(bi: usize, rep: &mut Report) {
 
 pub fn run(tier: Tier) -> i32 {
     let mut rep = Report::new("C20", tier);
-    rep.rule = "schedules: real exmex code on shuttle threads under a preemption-bounded DFS scheduler (scheduling point = every call-back into the harness data type / operator factory / literal matcher), all schedules with <= b preemptions, b iterated 0,1,2(,3); sequential histories: two operator tables over the same data type with equally many operators in different slots and a prefix-related operator pair (`*`, `**`); all call sequences up to the length bound over 14 jobs (incl. two shared expressions of 2050 / 2300 operands) in one process; observations must equal the schedule-independent reference; distinct = schedules / histories; non-trivial = schedule with at least one preemption".into();
+    rep.rule = "schedules: real exmex code on shuttle threads under a preemption-bounded DFS scheduler (scheduling point = every call-back into the harness data type / operator factory / literal matcher), all schedules with <= b preemptions, b iterated 0,1,2(,3); sequential histories: two operator tables over the same data type with equally many operators in different slots and a prefix-related operator pair (`*`, `**`); all call sequences up to the length bound over 16 jobs (incl. two shared expressions of 2050 / 2300 operands) in one process; observations must equal the schedule-independent reference; distinct = schedules / histories; non-trivial = schedule with at least one preemption".into();
     rep.assumptions = vec![
         "code between two call-backs runs atomically; lazy_static's Once is trusted (who initialises first is enumerated)".into(),
         "Send + Sync of FlatEx / DeepEx is asserted at compile time (harness and /verif/probe)".into(),
@@ -451,9 +488,14 @@ pub fn run(tier: Tier) -> i32 {
     let max_b = if tier.thorough() { 3 } else { 2 };
     let mut work: Vec<(usize, usize)> = Vec::new();
     for (bi, b) in bs.iter().enumerate() {
-        let three = b.threads.len() >= 3;
+        // bodies with three threads or very many scheduling points stop one bound earlier
+        let three = b.threads.len() >= 3 || b.name.starts_with("B4");
         for bound in 0..=max_b {
             if three && bound > 2 {
+                continue;
+            }
+            // (three evaluations of three expressions per job: ~400 scheduling points)
+            if b.name.starts_with("B4") && bound + 1 > max_b {
                 continue;
             }
             work.push((bi, bound));
@@ -506,8 +548,8 @@ pub fn run(tier: Tier) -> i32 {
     fresh_process_replays(2, &mut rep);
     // sequential histories
     use Job::*;
-    let jobs = vec![EvalShared(0), EvalVecShared(1), ParseEval(0, 0, false, 0), ParseEval(0, 1, false, 1), ParseEval(4, 0, true, 2), ParseEval(4, 1, true, 3), ParseEval(1, 1, false, 0), ParseEval(2, 0, true, 1), CloneConvert(2), ParseF64(0), ParseVal(0), ParseVal(1), EvalBig(0, 0), EvalBig(1, 1)];
+    let jobs = vec![EvalShared(0), EvalVecShared(1), ParseEval(0, 0, false, 0), ParseEval(0, 1, false, 1), ParseEval(4, 0, true, 2), ParseEval(4, 1, true, 3), ParseEval(1, 1, false, 0), ParseEval(2, 0, true, 1), CloneConvert(2), EvalVecW(0), CompileCloneW(1), ParseF64(0), ParseVal(0), ParseVal(1), EvalBig(0, 0), EvalBig(1, 1)];
     let m = Seq { jobs: Arc::new(jobs), max_len: if tier.thorough() { 5 } else { 4 } };
-    explore(m, &mut rep, "c20", "sequential call histories over 14 jobs");
+    explore(m, &mut rep, "c20", "sequential call histories over 16 jobs");
     rep.finish()
 }
